@@ -31,15 +31,16 @@ WRITERS = [('uvl', UVLWriter), ('afm', AFMWriter), ('json', JSONWriter), ('glenc
 WMODS = {'uvl': 'uvl_writer', 'afm': 'afm_writer', 'json': 'json_writer', 'glencoe': 'glencoe_writer', 'featureide': 'featureide_writer',
          'splot': 'splot_writer', 'clafer': 'clafer_writer', 'pl': 'pl_writer'}
 PKG = 'flamapy.metamodels.fm_metamodel.transformations.'
-CTC = [('IMPLIES', 'F0', 'F1'), ('OR', ('NOT', 'F1'), ('AND', 'F0', 'F1')), ('EXCLUDES', 'F1', 'F0'), ('EQUIVALENCE', 'F0', ('NOT', 'F1'))]
+CTC = [('IMPLIES', 'F0', 'F1'), ('OR', ('NOT', 'F1'), ('AND', 'F0', 'F1')), ('EXCLUDES', 'F1', 'F0'), ('EQUIVALENCE', 'F0', ('NOT', 'F1')),
+       ('XOR', 'F0', 'F1'), ('REQUIRES', 'F1', ('XOR', ('NOT', 'F0'), 'F1'))]      # every one of the eight logical operators occurs
 
 
-def model(shape, cards, names=None, with_attrs=True):
+def model(shape, cards, names=None, with_attrs=True, with_xor=True):
     n = R.n_features(shape)
     # default names and constraint names are deliberately NOT in sorted order: a writer that sorts one of the
     # model's own lists in place (instead of a copy) must show up in the order-preserving snapshot
     names = names or ['F%d' % (n - 1 - i) for i in range(n)]
-    trees = [_ren(t, names) for t in CTC] if n >= 2 else []
+    trees = [_ren(t, names) for t in CTC if with_xor or 'XOR' not in repr(t)] if n >= 2 else []
     m = R.build(shape, cards, names=names, abstract=[i % 2 == 1 for i in range(n)], ctcs=[R.ctc('c%d' % (len(trees) - i), t) for i, t in enumerate(trees)])
     if with_attrs:
         feats = _index(m)
@@ -275,7 +276,7 @@ shape = json.loads(sys.argv[1]); cards = json.loads(sys.argv[2]); names = json.l
 shape = c12.totuple(shape); cards = [tuple(c) for c in cards]
 res = {}
 for label, cls in c12.WRITERS:
-    m = c12.model(shape, cards, names=(names if label != 'afm' else None))
+    m = c12.model(shape, cards, names=(names if label != 'afm' else None), with_xor=(label != 'uvl'))      # the UVL file is read back: UVL has no xor
     p = os.path.join(outdir, 'out.' + label)
     ret = cls(p, m).transform()
     raw = open(p, 'rb').read()
